@@ -200,6 +200,14 @@ class ASTTypeBuilder:
 
         name = cast(NamedType, type_).name
         if name in _DEFAULT_TYPES_MAP:
+            # Specified types are never extended, extensions of a different
+            # kind are still an error.
+            if isinstance(type_, ScalarType):
+                self._collect_extensions(name, _ast.ScalarTypeExtension)
+            elif isinstance(type_, EnumType):
+                self._collect_extensions(name, _ast.EnumTypeExtension)
+            elif isinstance(type_, ObjectType):
+                self._collect_extensions(name, _ast.ObjectTypeExtension)
             return type_
 
         try:
